@@ -763,6 +763,8 @@ protected:
 
       std::string headerSection = dataStr.substr(0, headerEnd);
       std::size_t contentLength = 0;
+      bool haveContentLength = false;
+      bool haveTransferEncoding = false;
       bool isChunked = false;
 
       // Parse headers
@@ -792,19 +794,24 @@ protected:
 
           if (key == "content-length")
           {
-            try
+            // RFC 9112 §6.3: Content-Length = 1*DIGIT, and a repeated field must carry the
+            // same value. std::stoull framed "12abc", "+5" and "3, 4" by their leading digits
+            // and wrapped "-1"; the last of several differing fields silently won.
+            std::size_t parsed = 0;
+            bool valid = !value.empty();
+            for (char ch : value)
             {
-              contentLength = std::stoull(value);
-              if (contentLength > SessionInfo::MAX_BODY_SIZE)
+              if (ch < '0' || ch > '9')
               {
-                iora::core::Logger::error("HttpServer: Body size limit exceeded for session " +
-                                          std::to_string(sid) + " - closing connection");
-                // No lock held; guarded close (was unguarded raw _transport->close).
-                closeSession(sid);
-                return;
+                valid = false;
+                break;
+              }
+              if (parsed <= SessionInfo::MAX_BODY_SIZE) // saturate: larger values only need rejecting
+              {
+                parsed = parsed * 10 + static_cast<std::size_t>(ch - '0');
               }
             }
-            catch (...)
+            if (!valid || (haveContentLength && parsed != contentLength))
             {
               iora::core::Logger::error("HttpServer: Invalid "
                                         "content-length header for session " +
@@ -813,17 +820,42 @@ protected:
               closeSession(sid);
               return;
             }
+            if (parsed > SessionInfo::MAX_BODY_SIZE)
+            {
+              iora::core::Logger::error("HttpServer: Body size limit exceeded for session " +
+                                        std::to_string(sid) + " - closing connection");
+              // No lock held; guarded close (was unguarded raw _transport->close).
+              closeSession(sid);
+              return;
+            }
+            contentLength = parsed;
+            haveContentLength = true;
           }
           else if (key == "transfer-encoding")
           {
             // Convert value to lowercase for comparison
             std::transform(value.begin(), value.end(), value.begin(), ::tolower);
-            if (value.find("chunked") != std::string::npos)
-            {
-              isChunked = true;
-            }
+            haveTransferEncoding = true;
+            // chunked must be the FINAL coding (RFC 9112 §6.3 rule 4), not merely mentioned.
+            const auto lastComma = value.rfind(',');
+            std::string finalCoding =
+              lastComma == std::string::npos ? value : value.substr(lastComma + 1);
+            finalCoding.erase(0, finalCoding.find_first_not_of(" \t"));
+            isChunked = (finalCoding == "chunked");
           }
         }
+      }
+
+      // RFC 9112 §6.3: a request with both Transfer-Encoding and Content-Length (rule 3,
+      // request smuggling), or whose final transfer coding is not chunked (rule 4), has no
+      // trustworthy length - reject it rather than guess.
+      if (haveTransferEncoding && (haveContentLength || !isChunked))
+      {
+        iora::core::Logger::error("HttpServer: Ambiguous message length (Transfer-Encoding with "
+                                  "Content-Length, or not ending in chunked) for session " +
+                                  std::to_string(sid) + " - closing connection");
+        closeSession(sid);
+        return;
       }
 
       std::size_t requestEndPos;
